@@ -9,7 +9,7 @@ NOT decided: completeness of recursive subdivision and of numeric root finding, 
 import ast
 from svtstatic import poly
 from .common import *
-from . import c19, c08
+from . import c19, c08, c11
 
 PROPERTY = 'C12'
 LEVEL = 'other'
@@ -176,6 +176,14 @@ def run(ctx):
         return False, 'crossings kept: %s (the earlier one of a close pair must survive)' % idx
     Obligation(ctx, 'R12.5').run(fpi, 'joint-redundancy filter on two crossings', th_dd, judge_dd, allowed_raises=('AssertionError',),
                                  opts={'presign': [(TOL, '+')]})
+
+    # ---------------------------------------------------------------- R12.6 two crossings found on disjoint pairs of pieces
+    ctx.rule('R12.6', 'bezier_intersections, scenarios of overlapping small pairs of pieces: pairs that share no piece (distinct crossings under '
+                      'different parents) are reported once each; pairs that share a piece (one crossing next to a piece boundary) are reported once '
+                      'in all (unless the path knows two points to be closer than tol)', 5)
+    c11.subdivision_scenarios(ctx, 'R12.6', [(2, [(1, 2), (2, 1)]), (2, [(0, 0), (3, 3)]), (1, [(0, 0), (1, 0)]), (1, [(0, 1), (1, 1)])])
+    # one crossing at a corner where four sub-boxes meet (next to a piece boundary of BOTH curves): known finding F24
+    c11.subdivision_scenarios(ctx, 'R12.6', [(1, [(0, 0), (0, 1), (1, 0), (1, 1)])], mode='once')
 
     # ---------------------------------------------------------------- R12.4
     c08.cubic_minmax(ctx, 'R12.4')
